@@ -131,4 +131,47 @@ example : (match treeOfWbxml demoCfg.main (demoDoc.length + 1) demoCfg.lang demo
 example : (match wbxml2xml demoCfg (demoDoc.take 9) with | .error (.code c) => c == 45 | _ => false) = true := by
   decide +kernel
 
+/-! ## Why `w2x_total` is `_partial`: for arbitrary language tables the generator's fuel is not enough
+
+`W2XCfg.main` is quantified over, and a language table may carry an extension-value name that is
+itself a (large) WBXML document: a 3-byte `EXT_T_0 idx` then produces an embedded document whose tree
+is bigger than `2·len + 4`. The witness below is checked by evaluation. With the library's real
+tables (`Gen.main`) no extension name parses as a document; that table fact is what a full proof of
+`w2x_total` needs (see DESIGN_NOTES/C13_C01_proofs.md). -/
+
+/-- An embedded document: header (public id 2), 60 nested `X` elements around an empty `X`. -/
+def advInner : Bytes := [3, 2, 0x6A, 0] ++ List.replicate 60 0x48 ++ [0x08] ++ List.replicate 60 0x01
+
+/-- An adversarial Wireless-Village language: its extension-value table holds `advInner` as a name. -/
+def advLang : Lang :=
+  { id := 2301, pub := ⟨2, some b!"-//ADV//EN", some b!"X", some b!"adv.dtd"⟩,
+    tags := some [⟨b!"Data", 0, 5, 0⟩, ⟨b!"Meta", 0, 6, 0⟩, ⟨b!"Type", 0, 7, 0⟩, ⟨b!"X", 0, 8, 0⟩],
+    ns := none, attrs := none, values := none,
+    exts := some [⟨advInner, 0⟩] }
+
+def advCfg : W2XCfg := { main := [advLang] }
+
+/-- `<X><Meta><Type>application/vnd.syncml-devinf+wbxml</Type></Meta><Data>EXT_T_0 0</Data></X>`: 51 bytes. -/
+def advDoc : Bytes :=
+  [3, 2, 0x6A, 0, 0x48, 0x46, 0x47, 0x03] ++ b!"application/vnd.syncml-devinf+wbxml" ++
+  [0, 0x01, 0x01, 0x45, 0x80, 0x00, 0x01, 0x01]
+
+
+/-- The 51-byte `advDoc` under `advCfg` exhausts the generator's fuel `2·51 + 4`. -/
+theorem w2x_total_false_for_arbitrary_tables :
+    ¬ ∀ (cfg : W2XCfg) (bs : Bytes), wbxml2xml cfg bs ≠ .error .fuel := by
+  intro h
+  have hw : (match wbxml2xml advCfg advDoc with | .error .fuel => true | _ => false) = true := by
+    decide +kernel
+  rcases w2x_contract_partial advCfg advDoc with ⟨x, hx⟩ | ⟨c, _, hc⟩ | hf
+  · rw [hx] at hw; cases hw
+  · rw [hc] at hw; cases hw
+  · exact h advCfg advDoc hf
+
+/-- … while the same tree is generated without complaint when given more fuel: the failure is the
+    model's fuel, not the document. -/
+example : (match treeOfWbxml advCfg.main (advDoc.length + 1) 0 0 advDoc with
+    | .ok t => (treeToXml advCfg 400 t).toBool
+    | .error _ => false) = true := by decide +kernel
+
 end Wbxml.Props.C01
